@@ -23,6 +23,8 @@ def run(check):
     check.run_rule('C06.R1', lambda c: rule_call_protocol(c, 'C06.R1'))
     from ..rules_wrappers import rule_known_arguments_threaded
     check.run_rule('C06.R9', lambda c: rule_known_arguments_threaded(c, 'C06.R9'))
+    from ..rules_visitor import rule_enclosing_lookup
+    check.run_rule('C06.R6e', lambda c: rule_enclosing_lookup(c, None, precision_rule='C06.R6'))
     from ..rules_discovery import rule_subject_search
     check.run_rule('C06.R4c', lambda c: rule_subject_search(c, 'C06.R4'))
     check.run_rule('C06.R2', lambda c: rule_translation(c, {'translate': 'C06.R2', 'fallback': 'C06.R3'}))
